@@ -1,0 +1,137 @@
+//! Verification hook H4 (only with `--cfg mrecordlog_verif`): drives the *real* record/frame
+//! writer and reader over in-memory blocks, and exposes the entry decoder and the WAL file name
+//! parser, so that the codec can be compared with its model without going through files.
+use std::io;
+
+use crate::record::MultiPlexedRecord;
+use crate::recordlog::{RecordReader, RecordWriter};
+use crate::{BlockRead, BlockWrite, PersistAction, Serializable, BLOCK_NUM_BYTES};
+
+#[derive(Default)]
+pub struct MemWriter {
+    pub cursor: usize,
+    pub buffer: Vec<u8>,
+}
+
+impl BlockWrite for MemWriter {
+    fn write(&mut self, buf: &[u8]) -> io::Result<()> {
+        assert!(buf.len() <= self.num_bytes_remaining_in_block());
+        if self.buffer.len() < self.cursor + buf.len() {
+            self.buffer.resize(self.cursor + buf.len(), 0u8);
+        }
+        self.buffer[self.cursor..][..buf.len()].copy_from_slice(buf);
+        self.cursor += buf.len();
+        Ok(())
+    }
+
+    fn persist(&mut self, _persist_action: PersistAction) -> io::Result<()> {
+        Ok(())
+    }
+
+    fn num_bytes_remaining_in_block(&self) -> usize {
+        BLOCK_NUM_BYTES - (self.cursor % BLOCK_NUM_BYTES)
+    }
+}
+
+pub struct Raw<'a>(pub &'a [u8]);
+
+impl<'a> Serializable<'a> for Raw<'a> {
+    fn serialize(&self, buffer: &mut Vec<u8>) {
+        buffer.clear();
+        buffer.extend_from_slice(self.0);
+    }
+
+    fn deserialize(buffer: &'a [u8]) -> Option<Self> {
+        Some(Raw(buffer))
+    }
+}
+
+/// Writes the entries one after the other with the real `RecordWriter`, from offset 0.
+/// Returns the bytes written and the `num_bytes_written` reported for each entry.
+pub fn write_entries(entries: &[Vec<u8>]) -> (Vec<u8>, Vec<u64>) {
+    let frame_writer = crate::frame::FrameWriter::create(MemWriter::default());
+    let mut writer: RecordWriter<MemWriter> = frame_writer.into();
+    let mut counts = Vec::new();
+    for entry in entries {
+        counts.push(writer.write_record(Raw(entry)).unwrap());
+    }
+    let wrt = writer.get_underlying_wrt();
+    (wrt.buffer[..wrt.cursor].to_vec(), counts)
+}
+
+pub struct MemReader<'a> {
+    data: &'a [u8],
+    block: [u8; BLOCK_NUM_BYTES],
+}
+
+impl<'a> MemReader<'a> {
+    /// `data` must hold at least one block
+    pub fn new(data: &'a [u8]) -> Self {
+        let mut block = [0u8; BLOCK_NUM_BYTES];
+        block.copy_from_slice(&data[..BLOCK_NUM_BYTES]);
+        MemReader {
+            data: &data[BLOCK_NUM_BYTES..],
+            block,
+        }
+    }
+}
+
+impl BlockRead for MemReader<'_> {
+    fn next_block(&mut self) -> io::Result<bool> {
+        if self.data.len() < BLOCK_NUM_BYTES {
+            return Ok(false);
+        }
+        let (first, rest) = self.data.split_at(BLOCK_NUM_BYTES);
+        self.block.copy_from_slice(first);
+        self.data = rest;
+        Ok(true)
+    }
+
+    fn block(&self) -> &[u8; BLOCK_NUM_BYTES] {
+        &self.block
+    }
+}
+
+/// Reads every entry with the real `RecordReader`, the way `open_with_prefs` does: a
+/// corruption is reported (`None`) and reading goes on; stops at the end of the log.
+pub fn read_entries(data: &[u8]) -> Vec<Option<Vec<u8>>> {
+    let mut reader = RecordReader::open(MemReader::new(data));
+    let mut out = Vec::new();
+    loop {
+        match reader.read_record::<Raw>() {
+            Ok(Some(raw)) => out.push(Some(raw.0.to_vec())),
+            Ok(None) => return out,
+            Err(_) => out.push(None),
+        }
+    }
+}
+
+/// Canonical description of `MultiPlexedRecord::deserialize(bytes)`.
+pub fn decode_entry(bytes: &[u8]) -> Option<(u8, String, u64, Vec<(u64, Vec<u8>)>)> {
+    match MultiPlexedRecord::deserialize(bytes)? {
+        MultiPlexedRecord::AppendRecords {
+            queue,
+            position,
+            records,
+        } => Some((
+            4,
+            queue.to_string(),
+            position,
+            records.map(|r| r.map(|(p, b)| (p, b.to_vec())).unwrap()).collect(),
+        )),
+        MultiPlexedRecord::Truncate {
+            queue,
+            truncate_range,
+        } => Some((1, queue.to_string(), truncate_range.end, Vec::new())),
+        MultiPlexedRecord::RecordPosition { queue, position } => {
+            Some((2, queue.to_string(), position, Vec::new()))
+        }
+        MultiPlexedRecord::DeleteQueue { queue, position } => {
+            Some((3, queue.to_string(), position, Vec::new()))
+        }
+    }
+}
+
+pub fn filename_to_position(file_name: &str) -> Option<u64> {
+    crate::rolling::verif_filename_to_position(file_name)
+}
